@@ -3,6 +3,7 @@
 package layer2
 
 import (
+	"github.com/mdlayher/arp"
 	"fmt"
 	"net"
 	"sort"
@@ -103,3 +104,44 @@ func (a *Announce) VerifDrainSpam() []IPAdvertisement {
 func (a *Announce) VerifGratuitous(adv IPAdvertisement) { a.gratuitous(adv) }
 
 func VerifAdvString(adv IPAdvertisement) string { return advString(adv) }
+
+// VerifAddARPResponder installs a real arpResponder over an arbitrary packet connection (no raw socket)
+// under interface index idx; its run loop is not started: harnesses call VerifProcessRequest.
+func (a *Announce) VerifAddARPResponder(ifi *net.Interface, idx int, pc net.PacketConn) error {
+	c, err := arp.New(ifi, pc)
+	if err != nil {
+		return err
+	}
+	a.Lock()
+	defer a.Unlock()
+	a.arps[idx] = &arpResponder{logger: a.logger, intf: ifi.Name, hardwareAddr: ifi.HardwareAddr, conn: c, closed: make(chan struct{}), announce: a.shouldAnnounce}
+	return nil
+}
+
+// VerifProcessRequest runs the real processRequest of the responder under idx once.
+func (a *Announce) VerifProcessRequest(idx int) string {
+	a.RLock()
+	r := a.arps[idx]
+	a.RUnlock()
+	switch r.processRequest() {
+	case dropReasonNone:
+		return "answered"
+	case dropReasonClosed:
+		return "closed"
+	case dropReasonError:
+		return "error"
+	case dropReasonARPReply:
+		return "not-a-request"
+	case dropReasonEthernetDestination:
+		return "other-destination"
+	case dropReasonAnnounceIP:
+		return "not-held"
+	case dropReasonNotMatchInterface:
+		return "held-other-interface"
+	}
+	return "?"
+}
+
+// VerifNewAnnounce builds an Announce exactly as New does, minus starting the two background loops
+// (used where even the R-go rewrite is not applied).
+func VerifAdvIP(adv IPAdvertisement) net.IP { return adv.ip }
